@@ -715,3 +715,177 @@ Proof.
     reflexivity.
   - reflexivity.
 Qed.
+
+(* ------------------------------------------------------------------------------------------ *)
+(* assembling the sections *)
+Record sym_facts (blocks : list (Z * list (option Z))) (st : symtab) : Prop := {
+  sf_sym : Forall sym_entry_ok (st_labels st);
+  sf_idx : Forall idx_entry_ok (st_labels st);
+  sf_nd : NoDup (map fst (st_labels st));
+  sf_rel : Forall rel_entry_ok (st_rel st);
+  sf_ndr : NoDup (map fst (st_rel st));
+  sf_chk : check_relocations blocks (st_rel st) = true;
+  sf_dbg : forall d, st_debug st = Some d -> debug_inv d = true /\ debug_text_inv d = true;
+  sf_ne : st_labels st <> [] \/ st_debug st <> None
+}.
+
+Lemma text_inv_facts o : text_inv o = true ->
+  forallb block_inv (o_blocks o) = true /\ strictly_sorted (map fst (o_blocks o)) = true /\
+  forall st, o_sym o = Some st -> sym_facts (o_blocks o) st.
+Proof.
+  unfold text_inv, obj_inv. intro H. apply andb_true_iff in H. destruct H as [H Ht].
+  apply andb_true_iff in H. destruct H as [H Hsym]. apply andb_true_iff in H. destruct H as [Hbl Hss].
+  split; [exact Hbl|]. split; [exact Hss|]. intros st Est. rewrite Est in *.
+  unfold symtab_inv in Hsym.
+  apply andb_true_iff in Hsym. destruct Hsym as [Hsym Hne]. apply andb_true_iff in Hsym. destruct Hsym as [Hsym Hdbg].
+  apply andb_true_iff in Hsym. destruct Hsym as [Hsym Hchk]. apply andb_true_iff in Hsym. destruct Hsym as [Hsym Hndr].
+  apply andb_true_iff in Hsym. destruct Hsym as [Hsym Hrel]. apply andb_true_iff in Hsym. destruct Hsym as [Hlab Hnd].
+  apply andb_true_iff in Ht. destruct Ht as [Ht Htd]. apply andb_true_iff in Ht. destruct Ht as [Htl Htr].
+  constructor.
+  - apply Forall_forall. intros p Hp. rewrite forallb_forall in Hlab, Htl. specialize (Hlab p Hp). specialize (Htl p Hp).
+    unfold label_inv, in_u16 in Hlab. btrue. split; [lia|assumption].
+  - apply Forall_forall. intros p Hp. rewrite forallb_forall in Hlab, Htl. specialize (Hlab p Hp). specialize (Htl p Hp).
+    unfold label_inv, in_u16 in Hlab. btrue. split; [lia|assumption].
+  - apply (nodup_by_NoDup str_eqb str_eqb_eq). exact Hnd.
+  - apply Forall_forall. intros p Hp. rewrite forallb_forall in Hrel, Htr. specialize (Hrel p Hp). specialize (Htr p Hp).
+    unfold in_u16 in Hrel. btrue. split; [lia|assumption].
+  - apply (nodup_by_NoDup Z.eqb Zeqb_iff). exact Hndr.
+  - exact Hchk.
+  - intros d Ed. rewrite Ed in *. split; assumption.
+  - destruct (st_labels st); [right|left; discriminate]. cbn [negb orb] in Hne. destruct (st_debug st); [discriminate|discriminate].
+Qed.
+
+Lemma line_table_lines_kept d : debug_inv d = true -> debug_text_inv d = true -> Forall kept (line_table_lines d).
+Proof.
+  intros Hi Ht. destruct (line_table_eq d Hi Ht) as (Et & Hrin & Elen). unfold line_table_lines.
+  destruct (line_table d) as [|t0 ts] eqn:E; [constructor|].
+  constructor; [apply line_header_kept|]. apply Forall_forall. intros l Hl. apply in_map_iff in Hl. destruct Hl as [[k m] [<- Hp]].
+  apply line_row_kept. rewrite Et in Hp. unfold tbl in Hp. apply in_combine_l in Hp. apply seqz_in in Hp. lia.
+Qed.
+
+Lemma divider_kept : kept DIVIDER.
+Proof. split; reflexivity. Qed.
+
+Definition sections (st : symtab) : list str :=
+  s2z ".SYMBOL" :: sym_table_lines (st_labels st) ++ s2z ".LINKER_INFO" :: rel_table_lines (st_rel st)
+  ++ s2z ".DEBUG" :: (label_table_lines (st_labels st) ++ [DIVIDER] ++ debug_lines (st_debug st)).
+
+Lemma sym_table_lines_kept labels : Forall sym_entry_ok labels -> Forall kept (sym_table_lines labels).
+Proof.
+  intro H. unfold sym_table_lines. destruct labels as [|p0 l0] eqn:E; [constructor|]. rewrite <- E in *.
+  constructor; [split; reflexivity|]. apply Forall_forall. intros l Hl. apply in_map_iff in Hl. destruct Hl as [p [<- Hp]].
+  apply sym_row_kept. rewrite Forall_forall in H. apply H. eapply Permutation_in; [apply sort_by_perm|exact Hp].
+Qed.
+Lemma rel_table_lines_kept rel : Forall rel_entry_ok rel -> Forall kept (rel_table_lines rel).
+Proof.
+  intro H. unfold rel_table_lines. destruct rel as [|p0 l0] eqn:E; [constructor|]. rewrite <- E in *.
+  constructor; [split; reflexivity|]. apply Forall_forall. intros l Hl. apply in_map_iff in Hl. destruct Hl as [p [<- Hp]].
+  apply rel_row_kept. rewrite Forall_forall in H. apply H. eapply Permutation_in; [apply sort_by_perm|exact Hp].
+Qed.
+Lemma label_table_lines_kept labels : Forall idx_entry_ok labels -> Forall kept (label_table_lines labels).
+Proof.
+  intro H. unfold label_table_lines. destruct labels as [|p0 l0] eqn:E; [constructor|]. rewrite <- E in *.
+  constructor; [apply idx_header_kept|]. apply Forall_forall. intros l Hl. apply in_map_iff in Hl. destruct Hl as [p [<- Hp]].
+  apply idx_row_kept. rewrite Forall_forall in H. apply H. eapply Permutation_in; [apply sort_by_perm|exact Hp].
+Qed.
+Lemma debug_part_kept st blocks : sym_facts blocks st ->
+  Forall kept (label_table_lines (st_labels st) ++ [DIVIDER] ++ debug_lines (st_debug st)).
+Proof.
+  intro F. apply Forall_app. split; [apply label_table_lines_kept; apply (sf_idx _ _ F)|].
+  apply Forall_app. split; [repeat constructor; apply divider_kept|].
+  destruct (st_debug st) as [d|] eqn:Ed; cbn [debug_lines]; [|constructor].
+  destruct (sf_dbg _ _ F d Ed) as [Hi Ht]. apply Forall_app. split; [apply line_table_lines_kept; assumption|].
+  repeat constructor; apply divider_kept.
+Qed.
+
+Lemma filter_sym_lines st blocks : sym_facts blocks st -> filter keep_line (sym_lines st) = sections st.
+Proof.
+  intro F. unfold sym_lines, sections.
+  change (match st_labels st with [] => [] | _ :: _ => s2z "ADDR | EXT | LABEL" :: map sym_row (sort_by sym_lt (st_labels st)) end)
+    with (sym_table_lines (st_labels st)).
+  change (match st_rel st with [] => [] | _ :: _ => s2z "ADDR | LABEL" :: map rel_row (sort_by rel_lt (st_rel st)) end)
+    with (rel_table_lines (st_rel st)).
+  change (match st_debug st with Some d => line_table_lines d ++ [DIVIDER] | None => [] end) with (debug_lines (st_debug st)).
+  rewrite !filter_app.
+  rewrite (filter_kept (sym_table_lines _)) by (apply sym_table_lines_kept; apply (sf_sym _ _ F)).
+  rewrite (filter_kept (rel_table_lines _)) by (apply rel_table_lines_kept; apply (sf_rel _ _ F)).
+  rewrite (filter_kept (label_table_lines _)) by (apply label_table_lines_kept; apply (sf_idx _ _ F)).
+  pose proof (debug_part_kept st blocks F) as Hd. apply Forall_app in Hd. destruct Hd as [_ Hd]. apply Forall_app in Hd. destruct Hd as [_ Hd].
+  rewrite (filter_kept (debug_lines _)) by exact Hd.
+  reflexivity.
+Qed.
+
+Lemma flat_tblock_kept blocks : forallb block_inv blocks = true -> Forall kept (flat_map tblock_lines blocks).
+Proof.
+  induction blocks as [|b bl IH]; intro H; [constructor|]. apply forallb_cons_iff in H. destruct H as [Hb H].
+  cbn [flat_map]. apply Forall_app. split; [apply tblock_lines_kept; exact Hb|apply IH; exact H].
+Qed.
+
+Lemma filter_text_lines o : text_inv o = true ->
+  filter keep_line (text_lines o)
+  = TFMT_MAGIC :: s2z ".TEXT" :: flat_map tblock_lines (o_blocks o)
+    ++ match o_sym o with Some st => sections st | None => [] end.
+Proof.
+  intro H. destruct (text_inv_facts o H) as (Hbl & Hss & Hsym). unfold text_lines.
+  rewrite !filter_app. rewrite (filter_kept (flat_map _ _)) by (apply flat_tblock_kept; exact Hbl).
+  change (filter keep_line [TFMT_MAGIC; []; s2z ".TEXT"]) with [TFMT_MAGIC; s2z ".TEXT"].
+  change (filter keep_line [[]]) with (@nil str). cbn [app]. f_equal. f_equal. f_equal.
+  destruct (o_sym o) as [st|]; [|reflexivity]. apply (filter_sym_lines st (o_blocks o)). apply Hsym. reflexivity.
+Qed.
+
+Lemma check_relocations_perm blocks rel rel' : Permutation rel rel' -> check_relocations blocks rel = true -> check_relocations blocks rel' = true.
+Proof. unfold check_relocations. apply forallb_perm. Qed.
+
+Lemma group_lines_body_end body h b0 acc : Forall (fun l => starts_with 46 l = false) body ->
+  group_lines body (Some (h, b0)) acc = Some (acc ++ [(h, b0 ++ body)]).
+Proof.
+  intro H. rewrite <- (app_nil_r body) at 1. rewrite group_lines_body by exact H. apply group_lines_end.
+Qed.
+
+(* C18 at the level of lines *)
+Theorem deser_lines_text o : text_inv o = true ->
+  exists o', deser_lines (filter keep_line (text_lines o)) = ROk o' /\ obj_equiv o o'.
+Proof.
+  intro H. rewrite (filter_text_lines o H). destruct (text_inv_facts o H) as (Hbl & Hss & Hsym).
+  destruct o as [blocks sym]. cbn [o_blocks o_sym] in *.
+  unfold deser_lines. change (str_eqb TFMT_MAGIC TFMT_MAGIC) with true. cbn [negb].
+  pose proof (kept_not_dot _ (flat_tblock_kept blocks Hbl)) as Hnd.
+  rewrite group_lines_header by reflexivity. cbn [flush].
+  destruct sym as [st|].
+  - pose proof (Hsym st eq_refl) as F. unfold sections.
+    rewrite group_lines_body by exact Hnd. cbn [app].
+    rewrite group_lines_header by reflexivity. cbn [flush app].
+    rewrite group_lines_body by (apply kept_not_dot; apply sym_table_lines_kept; apply (sf_sym _ _ F)). cbn [app].
+    rewrite group_lines_header by reflexivity. cbn [flush app].
+    rewrite group_lines_body by (apply kept_not_dot; apply rel_table_lines_kept; apply (sf_rel _ _ F)). cbn [app].
+    rewrite group_lines_header by reflexivity. cbn [flush app].
+    rewrite group_lines_body_end by (apply kept_not_dot; apply (debug_part_kept st blocks F)). cbn [app].
+    change (DIVIDER :: debug_lines (st_debug st)) with ([DIVIDER] ++ debug_lines (st_debug st)).
+    cbn [run_groups]. rewrite grp_text by assumption. cbn [rd_bind].
+    rewrite grp_symbol by (apply (sf_sym _ _ F) || apply (sf_nd _ _ F)). cbn [rd_bind].
+    rewrite grp_linker by (apply (sf_rel _ _ F) || apply (sf_ndr _ _ F)). cbn [rd_bind].
+    rewrite grp_debug by (apply (sf_idx _ _ F) || apply (sf_nd _ _ F) || apply (sf_dbg _ _ F)). cbn [rd_bind t_dbg t_blocks t_labels t_rel].
+    assert (Hchk : check_relocations blocks (sort_by rel_lt (st_rel st)) = true)
+      by (eapply check_relocations_perm; [apply Permutation_sym; apply sort_by_perm|apply (sf_chk _ _ F)]).
+    destruct (st_debug st) as [d|] eqn:Ed.
+    + destruct (sf_dbg _ _ F d Ed) as [Hdi Hdt]. destruct (line_table_eq d Hdi Hdt) as (_ & Hrin & _).
+      unfold lsm_new. rewrite (lsm_runs_vec (ds_lines d) 0 _ [] Hrin ltac:(lia) ltac:(constructor)). cbn [app rd_bind].
+      unfold debug_inv, debug_text_inv in *.
+      assert (Hfb : lsm_from_blocks (ds_lines d) = ROk (ds_lines d)).
+      { apply lsm_from_blocks_ok; [|apply separated_disjoint]; btrue; assumption. }
+      rewrite Hfb. cbn [rd_bind]. unfold finish_obj. rewrite Hchk. cbn [negb is_some_dbg]. rewrite orb_true_r.
+      eexists. split; [reflexivity|]. split; [reflexivity|]. cbn [o_sym]. repeat split; cbn [st_labels st_rel st_debug].
+      * apply Permutation_sym. apply sort_by_perm.
+      * apply Permutation_sym. apply sort_by_perm.
+      * rewrite Ed. destruct d; reflexivity.
+    + cbn [rd_bind]. unfold finish_obj. rewrite Hchk. cbn [negb is_some_dbg]. rewrite orb_false_r.
+      destruct (sort_by sym_lt (st_labels st)) as [|p0 l0] eqn:Es.
+      { exfalso. apply sort_by_nil_iff in Es. destruct (sf_ne _ _ F) as [Hn|Hn]; [contradiction|]. rewrite Ed in Hn. contradiction. }
+      cbn [negb]. rewrite <- Es. eexists. split; [reflexivity|]. split; [reflexivity|]. cbn [o_sym]. repeat split; cbn [st_labels st_rel st_debug].
+      * apply Permutation_sym. apply sort_by_perm.
+      * apply Permutation_sym. apply sort_by_perm.
+      * rewrite Ed. reflexivity.
+  - rewrite app_nil_r. rewrite group_lines_body_end by exact Hnd. cbn [app].
+    cbn [run_groups]. rewrite grp_text by assumption. cbn [rd_bind t_dbg t_blocks t_labels t_rel].
+    unfold finish_obj. cbn. eexists. split; [reflexivity|]. split; [reflexivity|exact Logic.I].
+Qed.
